@@ -114,6 +114,7 @@ def required_cells(tier):
         req[f"len:{n}"] = 2
     for b in BONDS:
         req[f"bond:{b}"] = 1
+    req["bond>=128"] = 2
     return req
 
 
@@ -728,6 +729,8 @@ def describe_cells(ctx, snap, caps_mode):
     if isinstance(snap["bonds"], list):
         for b in sorted(set(snap["bonds"])):
             ctx.cells.append(f"bond:{b}")
+            if b >= 128:
+                ctx.cells.append("bond>=128")
     ranks = {t.ndim for t in snap["raw"]}
     ctx.cells.extend(f"rank{r}" for r in sorted(ranks))
     has_t = snap["tin"] is not None or snap["tout"] is not None
@@ -947,6 +950,13 @@ def build_rand(rng, idx):
         bonds[min(nsteps, 1 + idx % max(nsteps, 1))] = min(forced, 9)
     if idx % 6 == 1:
         bonds[0] = int(rng.integers(2, 4))     # non-trivial first bond
+    if idx % 17 == 8 and d == 2 and nsteps >= 2:
+        # large bond dimensions (strongly coupled environments reach
+        # hundreds): one bond, or two neighbouring ones on the same tensor
+        big = [130, 256, 150, 200][(idx // 17) % 4]
+        bonds[1] = big
+        if nsteps >= 3 and (idx // 17) % 2 == 0:
+            bonds[2] = [200, 129, 300, 128][(idx // 17) % 4]
     if caps == "compute":
         bonds[-1] = 1
     dt = [0.1, None, 0.25][idx % 3]
